@@ -36,7 +36,12 @@ RULE = ("with-items of (a) hand-written programs covering every documented targe
         "keyword/starred call, tuple display, stepped slice), (c) every with-item of the standard library (quick: every "
         "6th file), (d) thorough: the generated programs compiled by CPython 3.11 (version V311 of the compiler model), "
         "(e) kind fb: every context of the suspended generated programs (static description + frame locals with object "
-        "identities -> reported varname; managers are pre-bound to locals in 25% of the items). One case per BEFORE_WITH site (finally bodies are duplicated by the compiler). distinct = distinct "
+        "identities -> reported varname; managers are pre-bound to locals in 25% of the items; two suspensions per program, "
+        "the holding locals cleared or the manager re-bound under another name in between; every inspection done twice), "
+        "(f) 24 rebinding scenarios: 2-4 instances of one function (one code object) with a target-less / unsupported-target "
+        "with, started with the manager in local `mgr` / in no local / in `other`, stepped round-robin through 3 suspensions "
+        "that rebind the locals and inspected as the exiting entry from inside __exit__/__aexit__: varname must be None or a "
+        "local bound to the manager at that moment. One case per BEFORE_WITH site (finally bodies are duplicated by the compiler). distinct = distinct "
         "(program, site) descriptors; non-trivial = the item has a target other than a plain name")
 CONFIG = dict(
     coq=["C08"], level="proof",
@@ -231,8 +236,13 @@ def make_inputs(tier, seed):
     for spec in progs[: (len(specials()) + (80 if tier == "quick" else 1200))]:
         if spec.get("static_only"):
             continue
-        for k in range(sum(len(lv["items"]) for lv in spec["levels"])):
+        for k in range(2 * sum(len(lv["items"]) for lv in spec["levels"])):  # two suspensions
             yield {"src": "rt", "spec": spec, "ctx": k, "_kind": "fb"}
+    # one code object inspected repeatedly while the manager's local binding changes (and from other
+    # instances of the same function, and as the exiting entry)
+    for scn in G.rebind_scenarios():
+        for k in range(4 * len(scn["order"])):
+            yield {"src": "rb", "scn": scn, "insp": k, "_kind": "fb"}
     root, files = stdlib_files()
     stride = 6 if tier == "quick" else 1
     for n, rel in enumerate(files):
@@ -264,7 +274,18 @@ def rt_details(spec):
     return _RT[key]
 
 
+_RB = {}
+
+
 def run_case(desc):
+    if desc["src"] == "rb":
+        key = json.dumps(desc["scn"], sort_keys=True)
+        if key not in _RB:
+            _RB[key] = G.rebind_check(desc["scn"])
+        recs, probs = _RB[key]
+        if desc["insp"] >= len(recs):
+            return {"missing": True, "problems": probs}
+        return dict(recs[desc["insp"]], described=None, problems=probs if desc["insp"] == 0 else [])
     if desc["src"] == "rt":
         det = rt_details(desc["spec"])
         return det[desc["ctx"]] if desc["ctx"] < len(det) else {"missing": True}
@@ -280,7 +301,7 @@ def run_case(desc):
 
 
 def coq_case(desc, obs):
-    if desc["src"] == "rt":
+    if desc["src"] in ("rt", "rb"):
         if obs.get("missing"):
             return "(DFuel, [], 0, None)"
         loc = "[" + "; ".join("(%s, %d)" % (G.cstr(n), i) for n, i in obs["locals"]) + "]"
@@ -293,6 +314,10 @@ def coq_case(desc, obs):
 
 
 def direct_oracle(desc, obs):
+    if desc["src"] == "rb":
+        if obs.get("missing"):
+            return "inspection missing: " + "; ".join(obs.get("problems", [])[:3])
+        return "; ".join(obs.get("problems", [])[:3]) or None
     if desc["src"] == "rt":
         return "context missing from the extracted stack" if obs.get("missing") else None
     if not obs.get("matched"):
@@ -313,6 +338,8 @@ def direct_oracle(desc, obs):
 
 
 def classify(desc, obs):
+    if desc["src"] == "rb":
+        return ["rb:fb" + (":exiting" if obs.get("exiting") else "")]
     if desc["src"] == "rt":
         return ["rt:fb"]
     labs = [desc["src"] + ":" + desc.get("_kind", "main") + (":py" + desc["py"] if desc.get("py") else "")]
